@@ -339,6 +339,12 @@ def classify(exe, case, f, err):
     # KF-EX-RECURSION: commands that run commands (@, ra, so) nest without limit; the stack is exhausted
     if 'stack-overflow' in t and (t.count(' in ec_at ') + t.count(' in ec_source ')) >= 20:
         return 'KF-EX-RECURSION'
+    # KF-AT-SELFMOD: ec_at hands the register's own storage to ex_command; a command of it frees that storage (reg_putraw)
+    if 'heap-use-after-free' in t and ' in ec_at ' in t and 'reg_putraw' in t:
+        return 'KF-AT-SELFMOD'
+    # KF-MACRO-LOOP: vi stream that stores "...@a..." in register a and runs it: every run pushes itself again
+    if case['kind'] == 'vi' and f.startswith('hang') and any(re.search(rb'o[^\x1b]*@a[^\x1b]*\x1b"add\d*@a', l) for l in case['lines']):
+        return 'KF-MACRO-LOOP'
     # KF-SIGPIPE: a filter that exits without reading its input; the editor's write to the pipe raises SIGPIPE (default action: kill)
     if f == 'killed by signal 13' and b'!' in text:
         return 'KF-SIGPIPE'
